@@ -131,6 +131,42 @@ Qed.
 Example C05F_ex_range_rejected : de nore nore T5 20 2%N v_range = None.
 Proof. vm_compute. reflexivity. Qed.
 
+(* ------------------------------------------------------------------ constrained strings
+   corpus/convert/strings_example.json (see Props/C02F.v): a string longer than maxLength (counted in
+   Unicode scalar values) is rejected at the inline newtype `P.code` and inside the array `P.names`
+   (through the "$ref" to `Name`), for every regex engine. *)
+Definition D_str : defs := [([78; 97; 109; 101]%N, (SObj (Some [TString]) None None None (mkNumv None None None None None) (mkStrv (Some 3%N) (Some 1%N) (Some [94; 97; 98]%N)) ItemsAbsent (@nil schema) None None None false (@nil (ustring * schema)) (@nil ustring) None None None None None None None None None None)); ([80]%N, (SObj (Some [TObject]) None None None (mkNumv None None None None None) (mkStrv None None None) ItemsAbsent (@nil schema) None None None false [([99; 111; 100; 101]%N, (SObj (Some [TString]) None None None (mkNumv None None None None None) (mkStrv (Some 2%N) None None) ItemsAbsent (@nil schema) None None None false (@nil (ustring * schema)) (@nil ustring) None None None None None None None None None None)); ([110; 97; 109; 101; 115]%N, (SObj (Some [TArray]) None None None (mkNumv None None None None None) (mkStrv None None None) ItemsSingle [(SObj None None None None (mkNumv None None None None None) (mkStrv None None None) ItemsAbsent (@nil schema) None None None false (@nil (ustring * schema)) (@nil ustring) None None None None None None None (Some [78; 97; 109; 101]%N) None None)] None (Some 1%N) (Some 5%N) false (@nil (ustring * schema)) (@nil ustring) None None None None None None None None None None))] [[99; 111; 100; 101]%N] None None None None None None None None None None))].
+Definition T_str : space := (mkSpace [(1%N, (mkEntry (DNewtype [78; 97; 109; 101]%N None 3%N (CString (Some 3%N) (Some 1%N) (Some [94; 97; 98]%N))) (@nil ustring))); (2%N, (mkEntry (DStruct [80]%N None [(mkProp [99; 111; 100; 101]%N RNone PRequired 4%N); (mkProp [110; 97; 109; 101; 115]%N RNone POptional 5%N)] false) (@nil ustring))); (3%N, (mkEntry DString (@nil ustring))); (4%N, (mkEntry (DNewtype [80; 67; 111; 100; 101]%N None 3%N (CString (Some 2%N) None None)) (@nil ustring))); (5%N, (mkEntry (DVec 1%N) (@nil ustring)))] 6%N (mkSettings None (@nil ustring) false [58; 58; 32; 115; 116; 100; 32; 58; 58; 32; 99; 111; 108; 108; 101; 99; 116; 105; 111; 110; 115; 32; 58; 58; 32; 72; 97; 115; 104; 77; 97; 112]%N) false false false true (@nil ustring)).
+Definition v_str_ok : json := (JObj [([99; 111; 100; 101]%N, (JStr [120; 121]%N)); ([110; 97; 109; 101; 115]%N, (JArr [(JStr [97; 98]%N); (JStr [97; 98; 99]%N)]))]).
+Definition v_str_long : json := (JObj [([99; 111; 100; 101]%N, (JStr [120; 121; 122]%N))]).
+Definition v_str_item : json := (JObj [([99; 111; 100; 101]%N, (JStr [120]%N)); ([110; 97; 109; 101; 115]%N, (JArr [(JStr [97; 98; 99; 100]%N)]))]).
+
+Example C05F_str_in_frag : in_frag_exact Sanitize.ascii_classes D_str = true.
+Proof. vm_compute. reflexivity. Qed.
+
+Example C05F_str_convert : convert_doc Sanitize.ascii_classes D_str = Some T_str.
+Proof. vm_compute. reflexivity. Qed.
+
+Definition s_P : schema := match resolve_ref D_str [80]%N with Some s => s | None => SBool true end.
+
+Example C05F_str_long_rejected : forall re f, de re nore T_str f 2%N v_str_long = None.
+Proof.
+  intros re. apply (C05F_fragment_no_bypass Sanitize.ascii_classes re nore D_str T_str C05F_str_in_frag C05F_str_convert
+                      [80]%N 2%N s_P); [vm_compute; right; left; reflexivity|reflexivity|].
+  eapply (V_prop re D_str s_P [99; 111; 100; 101]%N); [reflexivity|left; reflexivity|reflexivity|discriminate|].
+  apply V_here; vm_compute; reflexivity.
+Qed.
+
+Example C05F_str_item_rejected : forall re f, de re nore T_str f 2%N v_str_item = None.
+Proof.
+  intros re. apply (C05F_fragment_no_bypass Sanitize.ascii_classes re nore D_str T_str C05F_str_in_frag C05F_str_convert
+                      [80]%N 2%N s_P); [vm_compute; right; left; reflexivity|reflexivity|].
+  eapply (V_prop re D_str s_P [110; 97; 109; 101; 115]%N); [reflexivity|right; left; reflexivity|reflexivity|discriminate|].
+  eapply (V_item re D_str _ _ _ (JStr [97; 98; 99; 100]%N)); [reflexivity|reflexivity|left; reflexivity|discriminate|].
+  eapply (V_ref re D_str _ [78; 97; 109; 101]%N); [reflexivity|reflexivity|discriminate|].
+  apply V_here; vm_compute; reflexivity.
+Qed.
+
 (* ------------------------------------------------------------------ the side condition is necessary
    `{"type":["string","null"],"enum":["x","y"]}` is in the C02 fragment; typify
    generates Option<enum>, which accepts `null`; `null` is not one of the
